@@ -10,6 +10,7 @@ import (
 	"os"
 	"runtime/debug"
 	"sync"
+	"sync/atomic"
 )
 
 // VerifRuntime is installed by the simulation harness.
@@ -26,7 +27,14 @@ type VerifRuntime interface {
 var verifRT VerifRuntime
 
 // VerifInstall installs (or with nil removes) the simulation runtime.
-func VerifInstall(rt VerifRuntime) { verifRT = rt }
+func VerifInstall(rt VerifRuntime) {
+	verifRT = rt
+	atomic.AddUint64(&verifEpoch, 1)
+}
+
+// verifEpoch changes with every installed (or removed) runtime: state that must not leak from one simulated run into
+// the next (free lists) is dropped when it does.
+var verifEpoch uint64
 
 // verifCloneRangeHook, when set, replaces the FICLONERANGE ioctl.
 var verifCloneRangeHook func(dst, src *os.File, srcOffset, srcLength, dstOffset uint64) error
@@ -271,10 +279,19 @@ type verifPool struct {
 	New   func() any
 	mu    sync.Mutex
 	items []any
+	epoch uint64
+}
+
+// fresh empties the list when a new simulated run has begun (called with mu held).
+func (p *verifPool) fresh() {
+	if e := atomic.LoadUint64(&verifEpoch); e != p.epoch {
+		p.items, p.epoch = nil, e
+	}
 }
 
 func (p *verifPool) Get() any {
 	p.mu.Lock()
+	p.fresh()
 	if n := len(p.items); n > 0 {
 		x := p.items[n-1]
 		p.items = p.items[:n-1]
@@ -293,6 +310,7 @@ func (p *verifPool) Put(x any) {
 		return
 	}
 	p.mu.Lock()
+	p.fresh()
 	p.items = append(p.items, x)
 	p.mu.Unlock()
 }
